@@ -557,7 +557,7 @@ def configs(tier):
         (0.5, A, 5, False, 16), (0.34, A, 5, False, 12), (0.4, A, 5, False, 12), (0.5, A, 3, True, 7),
         (0.3, A, 5, False, 18), (third, A, 4, False, 20), (0.26, A, 3, True, 7),
         (0.25, A, 4, False, 22), (0.25, A, 3, False, 28), (0.21, A, 5, False, 18), (0.25, A, 3, True, 8),
-        (0.19, A, 3, False, 32), (0.19, A, 4, False, 24), (0.17, A, 5, False, 20), (0.2, A, 4, False, 20),
+        (0.19, A, 3, False, 32), (0.19, A, 4, False, 22), (0.17, A, 5, False, 19), (0.2, A, 4, False, 20),
         (0.19, A, 3, True, 8),
         (0.1, A, 4, False, 12), (0.1, A, 3, True, 5), (0.001, A, 4, False, 9), (0.001, A, 3, True, 4),
         (0.5, B, None, False, 40), (0.34, B, None, False, 40), (third, B, None, False, 40), (0.3, B, None, False, 40),
